@@ -172,6 +172,13 @@ where
                     b.parts.subpath = s.as_str().into();
                     b
                 },
+                Call::Rebuild => {
+                    let keep = b.clone();
+                    match b.build() {
+                        Ok(p) => p.into_builder(),
+                        Err(_) => keep,
+                    }
+                },
                 Call::PartsQualsFromIter(pairs) => {
                     if let Ok(q) = purl::Qualifiers::try_from_iter(pairs.iter().map(|(k, v)| (k.as_str(), v.as_str()))) {
                         b.parts.qualifiers = q;
